@@ -28,6 +28,7 @@ PID = "C19"
 LEVEL = "model_checking"
 
 SEEDS = [0, 1, 12345]
+N_NAMED_CONFIGS = 8          # Len(Cli!NamedConfigs)
 
 CFG_DESIGN = """CONSTANTS
   MaxHist = {maxhist}
@@ -111,43 +112,47 @@ def run_lib(src, root, seed, n, spec):
     raise T.MachineryError("cli_lib produced no result: " + (p.stdout + p.stderr)[-1500:])
 
 
+CONFIG_CLAUSES = ("invalid_configuration_accepted", "valid_configuration_rejected", "library_composition_failed_on_accepted_job")
+
+
 def features(jobs, configs, rec, k, clause):
+  """Narrow facts about a failing step: the setting for configuration clauses, the spellings for dispatch clauses, the place
+  in the history and the hash seed for byte comparisons."""
   f = {}
   if rec["kind"] == "lib":
     key = rec["key"]
-    f.update({"reader": key[1], "writer": key[2], "config": key[3], "filters": ",".join(key[4])})
+    f.update({"reader": key[1], "writer": key[2], "filters": ",".join(key[4])})
     c = key[3]
+    job = None
   else:
     job = rec["jobrecs"][k - 1]
     st = rec["steps"][k - 1]
     c = job["cfgfile"] or job["inline"]
-    f.update({"content": job["content"], "itype": job["itype"], "iext": job["iext"], "otype": job["otype"], "oext": job["oext"],
-              "filters": ",".join(job["filters"]), "position_in_history": k, "exc": st["exc"], "status": st["status"],
-              "hashseed": rec["seed"], "cmd": job["cmd"]})
-  if c and len(configs[c]) <= 2:
-    s = configs[c][0]
-    f.update({"module": s["m"], "key": s["k"], "value": s["json"], "value_class": s["cls"], "value_type": s["v"]["t"]})
+    f.update({"exc": st["exc"], "observed_status": st["status"]})
+  if clause in CONFIG_CLAUSES or (clause == "output_file_written_despite_error" and c and len(configs[c]) <= 2):
+    if c and len(configs[c]) <= 2:
+      s = configs[c][0]
+      f.update({"module": s["m"], "key": s["k"], "value": s["json"], "value_class": s["cls"], "value_type": s["v"]["t"]})
+    else:
+      f["config"] = c
+  elif job is not None:
+    f.update({"cmd": job["cmd"], "content": job["content"], "itype": job["itype"], "iext": job["iext"], "otype": job["otype"],
+              "oext": job["oext"], "filters": ",".join(job["filters"]), "config": c})
+    if clause.startswith("bytes_") or clause == "document_lang_not_applied":
+      f.update({"position_in_history": k, "hashseed": rec["seed"]})
   return f
 
 
-def run(ctx):
-  deep = ctx.thorough()
-  src = core.SRC
-  maxhist = 3
-  ctx.rule = ("a case is one invocation of ttconv.tt.main inside a history replayed in one interpreter under one hash seed; "
-              "distinct by (job, position in history, hash seed); non-trivial = the invocation produced an output file "
-              "or was expected to be rejected")
-  res, jobs, configs, hists, maximal = explore(maxhist, deep)
-  ctx.tlc(res, "design check + enumeration of jobs and histories")
-  sizes = res.values("SIZES")[0]
-  ctx.count("catalogue_settings", sizes[1])
-  ctx.count("single_jobs", sizes[2])
-  ctx.count("jobs", sizes[3])
-  ctx.count("configurations", sizes[4])
-  ctx.count("histories_in_state_graph", len(hists))
-  ctx.count("maximal_histories_replayed", len(maximal))
-  jobrec = {j["n"]: j for j in jobs}
+def jkey(job):
+  return json.dumps(job, sort_keys=True)
 
+
+def conduct(ctx, deep, jobs, configs, histories, seeds, all_lib_seeds, libkeys=None):
+  """Replays `histories` (lists of job records) under `seeds`, runs the library compositions the specification prescribes
+  for their jobs (or `libkeys`) in fresh processes, and lets spec/Trace_Cli.tla judge everything."""
+  src = core.SRC
+  libof = {jkey(j["job"]): j["lib"] for j in jobs}
+  ncat = len(configs) - N_NAMED_CONFIGS      # configurations 1..ncat hold one catalogue setting each
   root = T.new_scratch("cli_work")
   for d in ("in", "out", "cfg", "lib"):
     os.makedirs(os.path.join(root, d), exist_ok=True)
@@ -158,23 +163,27 @@ def run(ctx):
     outdir = os.path.join(root, "out", "s%d" % seed)
     os.makedirs(outdir, exist_ok=True)
     rs = []
-    for rid, h in enumerate(maximal):
+    for rid, h in enumerate(histories):
       rj = []
-      for k, n in enumerate(h):
-        job = jobrec[n]["job"]
+      for k, job in enumerate(h):
         inp = J.input_path(samples, os.path.join(root, "in"), job["content"], job["iext"])
         out = os.path.join(outdir, "o_%d_%d%s" % (rid, k, job["oext"]))
         rj.append({"argv": J.argv_for(job, inp, out, configs, os.path.join(root, "cfg")), "out": out})
       rs.append({"id": rid, "jobs": rj})
     return rs
-  runs_by_seed = {seed: make_runs(seed) for seed in SEEDS}
-  runs = runs_by_seed[SEEDS[0]]
+  runs_by_seed = {seed: make_runs(seed) for seed in seeds}
+  runs = runs_by_seed[seeds[0]]
 
-  # library compositions needed: one per distinct key the specification prescribes
+  # library compositions needed: one per distinct key the specification prescribes for a replayed job
   keys = {}
-  for j in jobs:
-    if j["lib"]["status"] == "ok":
-      key = j["lib"]["key"]
+  if libkeys is None:
+    for h in histories:
+      for job in h:
+        lib = libof[jkey(job)]
+        if lib["status"] == "ok":
+          keys.setdefault(json.dumps(lib["key"]), lib["key"])
+  else:
+    for key in libkeys:
       keys.setdefault(json.dumps(key), key)
   libspecs = []
   for n, key in enumerate(keys.values()):
@@ -183,9 +192,17 @@ def run(ctx):
                               "config": J.config_dict(configs[c]) if c else None, "filters": filters}))
   ctx.count("library_compositions", len(libspecs))
 
-  with ThreadPoolExecutor(max_workers=9) as ex:
-    cli_f = {seed: ex.submit(run_cli, src, root, seed, runs_by_seed[seed], 2) for seed in SEEDS}
-    lib_f = {(n, seed): ex.submit(run_lib, src, root, seed, n, spec) for n, key, spec in libspecs for seed in SEEDS}
+  # hash seeds per composition: all three, except (quick tier) one rotating seed for single-setting configuration jobs
+  def seeds_for(n, key):
+    if all_lib_seeds or not 0 < key[3] <= ncat:
+      return list(SEEDS)
+    return [SEEDS[n % len(SEEDS)]]
+  libseeds = {n: seeds_for(n, key) for n, key, _ in libspecs}
+  ctx.count("library_processes", sum(len(v) for v in libseeds.values()))
+
+  with ThreadPoolExecutor(max_workers=8) as ex:
+    cli_f = {seed: ex.submit(run_cli, src, root, seed, runs_by_seed[seed], 2) for seed in seeds}
+    lib_f = {(n, seed): ex.submit(run_lib, src, root, seed, n, spec) for n, key, spec in libspecs for seed in libseeds[n]}
     cli_res = {seed: f.result() for seed, f in cli_f.items()}
     lib_res = {k: f.result() for k, f in lib_f.items()}
 
@@ -202,28 +219,28 @@ def run(ctx):
     recs.append({"kind": "config", "c": c, "syns": [J.setting_syn(s) for s in settings]})
   libexc = {}
   for n, key, spec in libspecs:
-    rs = [lib_res[(n, seed)] for seed in SEEDS]
-    recs.append({"kind": "lib", "key": key, "seeds": SEEDS, "status": [r["status"] for r in rs], "cids": [cid(r["sha"]) for r in rs]})
+    rs = [lib_res[(n, seed)] for seed in libseeds[n]]
+    recs.append({"kind": "lib", "key": key, "seeds": libseeds[n], "status": [r["status"] for r in rs], "cids": [cid(r["sha"]) for r in rs]})
     libexc[len(recs)] = [r["exc"] for r in rs]
   nsteps = 0
-  for seed in SEEDS:
+  for seed in seeds:
     for r in cli_res[seed]:
-      h = maximal[r["id"]]
+      h = histories[r["id"]]
       if r["steps"] is None or len(r["steps"]) != len(h):
-        raise T.MachineryError(f"history {h} was not replayed completely under hash seed {seed}")
+        raise T.MachineryError(f"history {r['id']} was not replayed completely under hash seed {seed}")
       steps = [{"status": s["status"], "exc": s["exc"], "outfile": s["outfile"], "cid": cid(s["sha"]), "lang": s["lang"]} for s in r["steps"]]
-      recs.append({"kind": "run", "id": r["id"], "seed": seed, "jobs": list(h), "jobrecs": [jobrec[n]["job"] for n in h], "steps": steps})
+      recs.append({"kind": "run", "id": r["id"], "seed": seed, "jobrecs": list(h), "steps": steps})
       nsteps += len(steps)
-      for k, s in enumerate(steps):
-        if s["outfile"] or jobrec[h[k]]["lib"]["status"] == "error":
-          ctx.nontrivial((h[k], k, seed))
+      for k, st in enumerate(steps):
+        if st["outfile"] or libof[jkey(h[k])]["status"] == "error":
+          ctx.nontrivial((jkey(h[k]), k, seed))
   ctx.evaluations += nsteps
   ctx.traces += len(recs)
   ctx.count("invocations", nsteps)
   ctx.count("distinct_outputs", len(table))
 
   text = "\n".join(json.dumps(r, separators=(",", ":")) for r in recs) + "\n"
-  tres = T.run_tlc("Trace_Cli", CFG_TRACE.format(maxhist=maxhist, full="TRUE" if deep else "FALSE"), workers=1,
+  tres = T.run_tlc("Trace_Cli", CFG_TRACE.format(maxhist=4 if deep else 3, full="TRUE" if deep else "FALSE"), workers=1,
                    env={"TRACE_FILE": "trace.ndjson"}, extra_files={"trace.ndjson": text}, timeout=3000, name="cli_trace",
                    java_opts=("-Xmx4g",))
   done = tres.values("DONE")
@@ -236,18 +253,50 @@ def run(ctx):
       raise T.MachineryError(f"{clause} at record {ri} step {k}: {json.dumps(rec)[:1200]}")
     f = features(jobs, configs, rec, k, clause)
     if rec["kind"] == "lib":
-      case = {"library_key": rec["key"], "status_per_seed": rec["status"], "content_id_per_seed": rec["cids"], "seeds": SEEDS,
+      case = {"library_key": rec["key"], "status_per_seed": rec["status"], "content_id_per_seed": rec["cids"], "seeds": rec["seeds"],
               "exceptions": libexc.get(ri)}
       what = f"library composition {rec['key']}: status {rec['status']} {libexc.get(ri)}"
     else:
       rid = rec["id"]
-      case = {"hashseed": rec["seed"], "history_job_numbers": rec["jobs"], "failing_step": k,
+      case = {"hashseed": rec["seed"], "jobs": rec["jobrecs"], "failing_step": k,
               "command_lines": [[a.replace(root, "<work>") for a in j["argv"]] for j in runs[rid]["jobs"]],
-              "observed": rec["steps"], "expected": [jobrec[n]["lib"] for n in rec["jobs"]]}
+              "observed": rec["steps"], "expected": [libof[jkey(j)] for j in rec["jobrecs"]]}
       what = "tt " + " ".join(a.replace(root, "<work>") for a in runs[rid]["jobs"][k - 1]["argv"]) + f" -> {rec['steps'][k - 1]}"
     ctx.violation(clause, case, f, what)
-  some = next(r for r in recs if r["kind"] == "run" and len(r["jobs"]) == 3)
-  ctx.sample({"history": some["jobs"], "hashseed": some["seed"], "steps": some["steps"],
+  return recs, runs, root
+
+
+def replay(ctx, rc, jobs, configs):
+  case = rc["case"]
+  if "library_key" in case:
+    conduct(ctx, rc.get("tier") == "thorough", jobs, configs, [], [SEEDS[0]], True, libkeys=[case["library_key"]])
+  else:
+    conduct(ctx, rc.get("tier") == "thorough", jobs, configs, [case["jobs"]], [case["hashseed"]], True)
+  ctx.rule = "replay of one recorded case"
+
+
+def run(ctx):
+  deep = ctx.thorough() or (ctx.replay_case is not None and ctx.replay_case.get("tier") == "thorough")
+  ctx.rule = ("a case is one invocation of ttconv.tt.main inside a history replayed in one interpreter under one hash seed; "
+              "distinct by (job, position in history, hash seed); non-trivial = the invocation produced an output file "
+              "or was expected to be rejected")
+  res, jobs, configs, hists, maximal = explore(4 if deep else 3, deep)
+  ctx.tlc(res, "design check + enumeration of jobs and histories")
+  if ctx.replay_case is not None:
+    return replay(ctx, ctx.replay_case, jobs, configs)
+  sizes = res.values("SIZES")[0]
+  ctx.count("catalogue_settings", sizes[1])
+  ctx.count("single_jobs", sizes[2])
+  ctx.count("jobs", sizes[3])
+  ctx.count("configurations", sizes[4])
+  ctx.count("histories_in_state_graph", len(hists))
+  ctx.count("maximal_histories_replayed", len(maximal))
+  jobrec = {j["n"]: j["job"] for j in jobs}
+  histories = [[jobrec[n] for n in h] for h in maximal]
+  recs, runs, root = conduct(ctx, deep, jobs, configs, histories, SEEDS, deep)
+  some = next(r for r in recs if r["kind"] == "run" and len(r["jobrecs"]) == 3)
+  ctx.sample({"history": [[j["content"], j["itype"], j["iext"], j["otype"], j["oext"], j["cfgfile"], j["inline"], j["filters"]] for j in some["jobrecs"]],
+              "hashseed": some["seed"], "steps": some["steps"],
               "command_line_of_first_job": [a.replace(root, "<work>") for a in runs[some["id"]]["jobs"][0]["argv"]]})
   ctx.exhaustive = True
   ctx.assume("the lexical classes of configuration strings (fraction, time code, colour, language tag, font families) are "
